@@ -214,6 +214,9 @@ func GenFlow(rng *rand.Rand, o GenOpts) *FlowP {
 		}
 		t := &f.Tasks[cands[rng.Intn(len(cands))]]
 		t.In = append(t.In, p)
+		if f.Types[p].Kind == TParam {
+			t.Form = FormLiteral // only a literal inside the generic function can mention its type parameters
+		}
 		consumed[p]++
 	}
 	// every output must be consumed: unconsumed ones become Results
